@@ -16,7 +16,7 @@ DEFS = [
     "input Filter { limit: Int! = 10, tag: String = \"t\", colors: [Color!] = [RED], nested: Filter, old: Int @deprecated(reason: \"x\"), req: ID! }",
 ]
 OPS = """
-query GetUser($f: Filter, $c: Color) { user(f: $f, c: $c) { id name color } }
+query GetUser($f: Filter, $c: Color) { user(f: $f, c: $c) @mixin(from: ".mixins", import: "MixA") { id name color } }
 query Things { things { __typename ... on User { name } ... on Bot { model } } }
 """
 LOCS = ["a.graphql", "sub/a.graphql", "b.graphqls", "sub/c.gql", "zz/deep/d.graphql"]  # two files of one name in different directories come first
